@@ -1605,6 +1605,10 @@ def _filter(eng, args, kwargs, node):
 
 @ext("map")
 def _map(eng, args, kwargs, node):
+    if eng.abstract and any(isinstance(a, SOpq) for a in args[1:]):
+        # map over an opaque collection: an unknown callee that may run the function on the elements (it can modify
+        # whatever the function can reach: the heap version is bumped by opaque_call)
+        return eng.opaque_call("builtins.map", None, list(args), kwargs, node)
     return MapV(args[0], list(args[1:]))
 
 
